@@ -12,11 +12,15 @@ Cases ==
     [] Shard = "two" -> {[fixed |-> s[1], vtype |-> s[2], args |-> a, spread |-> sp] : s \in Sigs2, a \in [1..2 -> Small] \cup [1..1 -> Lists \cup {"int5"}] \cup [1..3 -> {"int5", "list_i"}], sp \in BOOLEAN}
     [] Shard = "var" -> {[fixed |-> s[1], vtype |-> s[2], args |-> a, spread |-> sp] : s \in SigsV, a \in ArgSeqs(0) \cup ArgSeqs(1) \cup [1..2 -> Small \cup {"list_s", "list_empty"}] \cup [1..3 -> {"int5", "str", "list_i"}], sp \in BOOLEAN}
     [] Shard = "results" -> {[results |-> rs] : rs \in {<<>>} \cup [1..1 -> RKinds] \cup [1..2 -> RKinds] \cup [1..3 -> {"int64", "nilslice", "nilptr", "nilerr", "err", "ifacenil"}]}
+    [] Shard = "callbacks" -> {[gfix |-> gf, gvar |-> gv, gextra |-> ge, sfix |-> sf, svar |-> sv, gres |-> 1, sret |-> 1] :
+                                 gf \in 0..2, gv \in BOOLEAN, ge \in 0..3, sf \in 0..3, sv \in BOOLEAN}
+                              \cup {[gfix |-> 1, gvar |-> FALSE, gextra |-> 0, sfix |-> 1, svar |-> FALSE, gres |-> gr, sret |-> sr] : gr \in 0..2, sr \in 0..3}
     [] Shard = "methods" -> {[shape |-> sh, recv |-> rc, nargs |-> n] : sh \in RecvShapes, rc \in {"value", "pointer"}, n \in {0, 1, 2}}
 VARIABLES c, done
 Init == c \in Cases /\ done = FALSE
 Step == ~done /\ done' = TRUE /\ c' = c
         /\ IF Shard = "results" THEN PrintT(ToJson([c |-> c, res |-> Results(c.results)]))
+           ELSE IF Shard = "callbacks" THEN PrintT(ToJson([c |-> c, sees |-> CallbackSees(c.gfix, c.gvar, IF c.gvar THEN c.gextra ELSE 0, c.sfix, c.svar), returns |-> CallbackReturns(c.gres, c.sret)]))
            ELSE IF Shard = "methods" THEN PrintT(ToJson([c |-> c, reachable |-> MethodReachable(c.shape, c.recv), mutation |-> MutationVisible(c.shape, c.recv)]))
            ELSE /\ Assert(TableSane(c.fixed, c.vtype, c.args, c.spread), <<"call table not total", c>>)
                 /\ LET o == Outcome(c.fixed, c.vtype, c.args, c.spread) IN
